@@ -52,4 +52,4 @@ def run_shard(params):
 
 
 def replay(witness):
-    return GC.replay_group(witness)
+    return GC.replay_group(witness, "judge_c05")
